@@ -68,8 +68,9 @@ def mnemonic_from_entropy(entropy: str) -> str:
     :param entropy: entropy hex
     :return: mnemonic sentence
     """
-    entropy_bits = len(entropy) * 4
     entropy_bytes = bytes.fromhex(entropy)
+    entropy_bits = len(entropy_bytes) * 8
+    correct_entropy_bits_value(entropy_bits=entropy_bits)
     entropy_int = big_endian_to_int(entropy_bytes)
     sha256_entropy_bytes = sha256(entropy_bytes)
     sha256_entropy_int = big_endian_to_int(sha256_entropy_bytes)
